@@ -23,7 +23,7 @@ RULE = (
     "cases are histories of named-paths runs over {2 groups} x {new instance, reused instance} x "
     "non-decreasing scripted instants from {10:00:00, 10:00:01, 12:59:59, 13:00:00, 23:59:59, next day "
     "00:00:00, 00:00:01} (same-second repeats allowed), first step canonical: exhaustive to length 3 "
-    "(quick) / 4 (thorough) with collect_paths, plus Hypothesis-drawn histories of length 5-8 over all six "
+    "(quick) / 5 (thorough) with collect_paths, plus Hypothesis-drawn histories of length 5-8 over all six "
     "run methods; invariants after every run; non-trivial = a reuse step after a run of the other group, "
     "or consecutive runs that cross 13:00 or midnight; distinct = distinct history"
 )
@@ -34,7 +34,7 @@ ASSUMPTIONS = [
 ]
 ENUM_EXHAUSTIVE = {
     "quick": "all canonical histories of length <= 3 (collect_paths)",
-    "thorough": "all canonical histories of length <= 4 (collect_paths)",
+    "thorough": "all canonical histories of length <= 5 (collect_paths): 133,175 histories",
 }
 GROUPS = ["g1", "g2"]
 BASE = _dt.datetime(2031, 3, 5, 0, 0, 0, tzinfo=_dt.timezone.utc)
@@ -47,7 +47,7 @@ INSTANTS = [
     BASE + _dt.timedelta(days=1),
     BASE + _dt.timedelta(days=1, seconds=1),
 ]
-WALL_BUDGET_S = {"quick": 200, "thorough": 1500}
+WALL_BUDGET_S = {"quick": 200, "thorough": 3300}
 
 
 def budget(tier):
@@ -55,7 +55,7 @@ def budget(tier):
 
 
 def enumerate_cases(tier, seed):
-    maxlen = 3 if tier == "quick" else 4
+    maxlen = 3 if tier == "quick" else 5
     for ln in range(1, maxlen + 1):
         for times in itertools.combinations_with_replacement(range(len(INSTANTS)), ln):
             for groups in itertools.product(GROUPS, repeat=ln):
